@@ -77,6 +77,7 @@ def is_trigger_with(w: ast.With):
 
 
 def run(ctx):
+    ctx.rule("R18.m", "a change of a Parameter attribute (objects, bounds, ...) is announced with the assigned value: in Parameter.__setattr__ the third argument of _trigger_event is the `value` parameter itself, never a read-back through a property", floor=1)
     ctx.rule("R18.a", "in every listed mutator each mutation of the proxy list has, in the same block, the same mutation of _objects with identical arguments (and vice versa); update only delegates", floor=8)
     ctx.rule("R18.b", "ListProxy.pop returns, on every path, a value obtained from a .pop(...) on one of the stores", floor=2)
     ctx.rule("R18.c", "where a mutator rebuilds names after removing an object, the filter keeps the entries NOT identical to it (pop and remove agree)", floor=2)
@@ -419,6 +420,8 @@ def _rule_g(ctx):
     # model-level rule, run last
     from checks import listproxy_model
     listproxy_model.report(ctx, "R18.j")
+    from checks.shared import slot_event_carries_assigned_value
+    slot_event_carries_assigned_value(ctx, "R18.m")
     from checks import selector_model
     selector_model.report(ctx, "R18.k")
     from checks import instcopy_model
